@@ -34,11 +34,11 @@ class Script:
         return full_game(g)
 
 
-def make_env(n: int, script: Script, comp: str, gap, budget: int | None = None, linear: bool = False):
+def make_env(n: int, script: Script, comp: str, gap, budget: int | None = None, linear: bool = False, known_extra: tuple = ()):
     from incomplete_cooperative.game import IncompleteCooperativeGame
     from incomplete_cooperative.icg_gym import ICG_Gym
     inc = IncompleteCooperativeGame(n, computer(comp))
-    env = ICG_Gym(inc, script, [coal(s) for s in minimal_ids(n)], gap, done_after_n_actions=budget)
+    env = ICG_Gym(inc, script, [coal(s) for s in tuple(minimal_ids(n)) + tuple(known_extra)], gap, done_after_n_actions=budget)
     if linear:
         from incomplete_cooperative.icg_gym_linear import ICG_Gym_Linear
         return ICG_Gym_Linear(env)
